@@ -215,6 +215,18 @@ def gen_plan(rng):
         fault = {'kind': 'none'}
 
     if rng.chance(6):
+        # a command that is over at once: (output,) EOF and close right
+        # behind the reply to the request that started it, with nothing
+        # else going on -- the client's session is told all of it
+        chans[:] = [{'kind': 'cb', 'req': 'exec', 'c': [],
+                     's': ([['w', rng.choice([1, 50])]]
+                           if rng.chance(50) else []) +
+                     [['eof'], ['close']],
+                     'start_delay': 0, 'via': 'conn', 'inner_up': True}]
+        srv_kinds = ['cb'] + srv_kinds[1:]
+        fault = {'kind': 'none'}
+
+    if rng.chance(6):
         # SFTP requests in flight on one channel while the application's
         # callback on another channel of the same connection raises
         chans[:0] = [
@@ -250,7 +262,8 @@ def gen_plan(rng):
         'early': rng.choice([None, None, None,
                              {'nth': rng.below(3),
                               'how': rng.choice(['exit', 'close',
-                                                 'exit_close', 'burst'])}]),
+                                                 'exit_close', 'burst',
+                                                 'msg_close'])}]),
         # begin_auth() is a coroutine that needs this many events (and then
         # says no authentication is needed)
         'begin_auth_delay': rng.choice([0, 0, 0, 2, 10, 40]),
@@ -279,7 +292,7 @@ def valid_plan(plan):
         e = plan.get('early')
 
         if e is not None and (e['how'] not in ('exit', 'close', 'exit_close',
-                                               'burst')
+                                               'burst', 'msg_close')
                               or not 0 <= e['nth'] <= 8):
             return False
 
@@ -340,7 +353,7 @@ class Sess:
             if 'exit' in early['how']:
                 chan.exit(3)
 
-            if 'close' in early['how']:
+            if 'close' in early['how'] and early['how'] != 'msg_close':
                 chan.close()
 
     def session_started(self):
@@ -352,12 +365,25 @@ class Sess:
         if self.name.startswith('S'):
             self.run.start_server_script(self, self.command)
 
+    def _refuse_with_message(self):
+        early = self.run.plan.get('early')
+
+        if early and early['how'] == 'msg_close' and \
+                self.name == 'S%d' % early['nth']:
+            # a word of explanation, then the channel is closed: the
+            # client's request gets no reply any more
+            self.chan.write(b'not today\n')
+            self.chan.close()
+            return True
+
+        return False
+
     def shell_requested(self):
-        return True
+        return not self._refuse_with_message()
 
     def exec_requested(self, command):
         self.command = command
-        return True
+        return not self._refuse_with_message()
 
     def pty_requested(self, *args):
         return True
@@ -1070,6 +1096,44 @@ def run_plan(plan, sched_seed=None, sched_replay=None):
                         'no-close-notification',
                         '%s: session got connection_made but never '
                         'connection_lost (log %r)' % (sess.name, sess.log))
+
+        # with no fault at all, a client session that only listens is told
+        # everything its peer did before closing the channel
+        client_label = getattr(run.conn, '_sim_label', None)
+        got_eof = any(d == 'R' and t == 96 for d, t, *_rest in
+                      sim.pkts.get(client_label, []))
+
+        # (one channel: the EOF the client connection took off the wire,
+        # if any, is this channel's)
+        if f['kind'] == 'none' and not plan.get('early') and got_eof and \
+                len(plan['channels']) == 1:
+            for sess in run.sessions:
+                if not sess.name.startswith('C') or \
+                        not sess.name[1:].isdigit() or \
+                        int(sess.name[1:]) >= len(plan['channels']):
+                    continue
+
+                ch = plan['channels'][int(sess.name[1:])]
+                kinds = [op[0] for op in ch['s']]
+
+                if ch['kind'] != 'cb' or ch['c'] or 'started' not in \
+                        sess.log or 'eof' not in kinds or \
+                        any(k not in ('w', 'y')
+                            for k in kinds[:kinds.index('eof')]):
+                    continue
+
+                sim.probes['listening_session_checked'] += 1
+                want = (['data'] if any(
+                    op[0] == 'w' and op[1] for op in
+                    ch['s'][:kinds.index('eof')]) else []) + ['eof']
+                have = [e for e in sess.log if e in ('data', 'eof')]
+
+                if 'eof' not in have or (want[0] == 'data' and
+                                         'data' not in have):
+                    world.violation(
+                        'not-told', '%s only listens; the server session '
+                        'did %r, the client session was told %r' %
+                        (sess.name, ch['s'], sess.log), sig='eof')
 
         for owner in run.clients + run.server_owners + run.inner_clients + \
                 run.inner_owners:
